@@ -132,7 +132,9 @@ DrangeLaw == ~done \/ \A u \in UsD :
 \* ---- the mechanism of the code equals the law level on the claimed domain ------------------
 MechanismIsLaw == ~done \/ LET tab == BTable(c) IN \A q \in QueriesMC : (InDomain(c, q) /\ Pinned(c, q)) => MechAnswer(c, tab, q) \in AcceptedAnswers(c, q)
 \* ... and beyond the range it answers as the law level counts, or refuses (RefusalBeyondRange); it never hangs
-BeyondIsLawOrRefusal == ~done \/ LET tab == BTable(c) IN \A q \in QueriesMC : (Posed(c, q) /\ Pinned(c, q) /\ ~InDomain(c, q)) =>
+\* (with the wide margin <<21, 21>> every question of the menu stays inside - see the header -, so there is nothing to evaluate)
+Wide == c.w0 - c.lo >= 21 /\ c.hi - (c.w0 + HW - 1) >= 21
+BeyondIsLawOrRefusal == ~done \/ Wide \/ LET tab == BTable(c) IN \A q \in QueriesMC : (Posed(c, q) /\ Pinned(c, q) /\ ~InDomain(c, q)) =>
                             LET m == MechAnswer(c, tab, q) IN m \in AcceptedAnswers(c, q) \/ MRefused(m)
 \* the two paths of add agree wherever both are defined: the table path asked for |n| <= 1 and the
 \* loop path composed for |n| = 2
